@@ -237,11 +237,11 @@ func (w *c09Worker) inject(f []string) string {
 		if err != nil || !ok {
 			return "bad-op"
 		}
-		for _, q := range s.VerifOpenQueries() {
+		for _, q := range serf.VerifOpenQueries(s) {
 			c.Delegate.NotifyMsg(encodeWire(msgQueryResponseType, &wireQueryResponse{LTime: uint64(q.LTime), ID: q.ID, From: string(a[0]), Flags: uint32(fl), Payload: a[1]}))
 		}
 	case "selfconflict": // another node claims our name; the vote gets one valid matching reply, then the given payloads
-		before := len(s.VerifOpenQueries())
+		before := len(serf.VerifOpenQueries(s))
 		c.Conflict.NotifyConflict(c09Node(c09Self, []byte{127, 0, 0, 1}, nil, 1, 0), c09Node(c09Self, []byte{10, 9, 9, 9}, nil, 9, 0))
 		w.waitOpen(before + 1)
 		local := s.Memberlist().LocalNode()
@@ -253,7 +253,7 @@ func (w *c09Worker) inject(f []string) string {
 			}
 		}
 		for i, p := range pays {
-			for _, q := range s.VerifOpenQueries() {
+			for _, q := range serf.VerifOpenQueries(s) {
 				c.Delegate.NotifyMsg(encodeWire(msgQueryResponseType, &wireQueryResponse{LTime: uint64(q.LTime), ID: q.ID, From: "v" + strconv.Itoa(i), Payload: p}))
 			}
 			time.Sleep(200 * time.Microsecond)
@@ -266,7 +266,7 @@ func (w *c09Worker) inject(f []string) string {
 
 func (w *c09Worker) waitOpen(n int) {
 	dl := time.Now().Add(5 * time.Second)
-	for len(w.n.S.VerifOpenQueries()) < n && time.Now().Before(dl) {
+	for len(serf.VerifOpenQueries(w.n.S)) < n && time.Now().Before(dl) {
 		time.Sleep(200 * time.Microsecond)
 	}
 }
